@@ -5,7 +5,8 @@ Tie: translator (MAX_BITS, first feature bit, global bit, flag values, shape gua
 statements) + correspondence: Feature::new (boundary + exhaustive small), from_str (grammar + mutated
 strings), the real set_masks (hook), feature infos -> compiled fields of real plans (hook).
 Search (implementation level, independent of the model): Feature::new acts on c iff the Rust range contains c
-(known class feature_new_end_bound), documented feature syntax -> intended meaning, set_masks range/value
+(known class feature_new_end_bound), documented feature syntax -> intended meaning over all u32 indices (known
+class from_str_index_i32: indices >= 2^31), set_masks range/value
 predicate, mask-field invariants of real plans, range/value predicate through shape() on generated fonts
 (single, alternate, positioning features; several features up to mask exhaustion) and on corpus fonts."""
 import json
@@ -19,6 +20,8 @@ from common import nlist
 LEVEL = "proof"
 CLS = "feature_new_end_bound"
 WITNESS = os.path.join(C.CORPUS, "C14-feature-new-bounded-end.json")
+CLS2 = "from_str_index_i32"
+WITNESS2 = os.path.join(C.CORPUS, "C14-from-str-index-i32.json")
 U32MAX = 0xFFFFFFFF
 
 HDR = ("From Coq Require Import List NArith Bool.\n"
@@ -128,14 +131,17 @@ def parse_plan_lines(out):
     return cases, raw, recs
 
 
-def correspondence(chk, binp, thorough):
+def correspondence(chk, binp, thorough, flavour="release"):
+    """flavour "release": full sizes; "checked" (overflow-checks + debug-assertions build): reduced sizes,
+    same model - a trap where the model computes a value is a disagreement."""
     dis = []
     jobs = []
     index = {}   # job name -> (raw lines, base)
+    scale = 1 if flavour == "release" else 4
 
     def add(kind, typ, fn, cases, raw, shard):
         for i in range(0, len(cases), shard):
-            name = "c14_%s_%d" % (kind, i // shard)
+            name = "c14_%s_%s_%d" % (flavour, kind, i // shard)
             body = HDR + "Definition cases : list %s :=\n %s.\n" % (typ, chunked(cases[i:i + shard], 500))
             body += "Eval vm_compute in (failing %s cases).\n" % fn
             jobs.append((name, body))
@@ -143,15 +149,15 @@ def correspondence(chk, binp, thorough):
 
     new_cases, new_raw = parse_new_lines(rbv(binp, ["new"]))
     add("new", "new_case", "check_new", new_cases, new_raw, 1000)
-    p_cases, p_raw = parse_parse_lines(rbv(binp, ["parse", "--seed", chk.seed, "--n", 24000 if thorough else 4000]))
+    p_cases, p_raw = parse_parse_lines(rbv(binp, ["parse", "--seed", chk.seed, "--n", (24000 if thorough else 4000) // scale]))
     add("parse", "parse_case", "check_parse", p_cases, p_raw, 1000)
-    s_cases, s_raw, s_recs = parse_sm_lines(rbv(binp, ["setmasks", "--seed", chk.seed, "--n", 12000 if thorough else 3000]))
+    s_cases, s_raw, s_recs = parse_sm_lines(rbv(binp, ["setmasks", "--seed", chk.seed, "--n", (12000 if thorough else 3000) // scale]))
     add("sm", "sm_case", "check_sm", s_cases, s_raw, 1000)
-    pl_cases, pl_raw, pl_recs = parse_plan_lines(rbv(binp, ["plan", "--seed", chk.seed, "--n", 3000 if thorough else 600]))
+    pl_cases, pl_raw, pl_recs = parse_plan_lines(rbv(binp, ["plan", "--seed", chk.seed, "--n", (3000 if thorough else 600) // scale]))
     add("plan", "plan_case", "check_plan", pl_cases, pl_raw, 150)
     # the recorded witness of the known finding, on the model
     w = json.load(open(WITNESS))["witness"]
-    jobs.append(("c14_witness", HDR + "Eval vm_compute in (let r := rform_of %d %d %d in "
+    jobs.append(("c14_witness_" + flavour, HDR + "Eval vm_compute in (let r := rform_of %d %d %d in "
                  "[if covers (feature_new 0 1 r) %d then 1 else 0; if in_rangeb r %d then 1 else 0; if bounded_end r then 1 else 0]).\n"
                  % (w["form"], w["a"], w["b"], w["c"], w["c"])))
     res = C.coq_eval_many(jobs)
@@ -164,21 +170,22 @@ def correspondence(chk, binp, thorough):
         if not lists:
             dis.append({"what": "no-answer", "file": name})
             continue
-        if name == "c14_witness":
+        if name.startswith("c14_witness"):
             model_witness = lists[0]
             continue
         raw, base, kind = index[name]
         for idx in lists[0]:
-            dis.append({"what": "%s-differs" % kind, "case": raw[base + idx][:1500]})
+            dis.append({"what": "%s-differs" % kind, "flavour": flavour, "case": raw[base + idx][:1500]})
     n = len(new_cases) + len(p_cases) + len(s_cases) + len(pl_cases)
     chk.add_eval(n, len(set(new_cases)) + len(set(p_cases)) + len(set(s_cases)) + len(set(pl_cases)))
-    chk.note("correspondence_cases", {"feature_new": len(new_cases), "from_str": len(p_cases),
+    chk.note("correspondence_cases_" + flavour, {"feature_new": len(new_cases), "from_str": len(p_cases),
                                       "from_str_accepted": sum(1 for c in p_cases if not c.endswith("None)")),
                                       "set_masks": len(s_cases), "plans": len(pl_cases)})
-    chk.sample({"feature_new": new_raw[len(new_raw) // 3]})
-    chk.sample({"from_str": p_raw[len(p_raw) // 2]})
-    chk.sample({"set_masks": s_raw[len(s_raw) // 2]})
-    chk.sample({"plan": pl_raw[len(pl_raw) // 2][:400]})
+    if flavour == "release":
+        chk.sample({"feature_new": new_raw[len(new_raw) // 3]})
+        chk.sample({"from_str": p_raw[len(p_raw) // 2]})
+        chk.sample({"set_masks": s_raw[len(s_raw) // 2]})
+        chk.sample({"plan": pl_raw[len(pl_raw) // 2][:400]})
     return dis, s_recs, pl_recs, model_witness
 
 
@@ -275,7 +282,9 @@ def doc_strings(rng, n):
         s += q + tag + q
         start, end = 0, U32MAX
         form = rng.randrange(7)
-        a = rng.choice([0, 1, 2, 3, 5, 10, 255, 65536, 2 ** 31 - 2])
+        # indices range over all of u32 (short of the u32::MAX sentinel); those >= 2^31 fall into the known
+        # class from_str_index_i32 (from_str reads indices as i32, HarfBuzz reads unsigned)
+        a = rng.choice([0, 1, 2, 3, 5, 10, 255, 65536, 2 ** 31 - 1002, 2 ** 31 - 1, 2 ** 31, 3000000000, 2 ** 32 - 1003])
         b = a + rng.choice([0, 1, 2, 7, 1000])
         if form == 1:
             s += "[%d]" % a
@@ -306,26 +315,40 @@ def doc_strings(rng, n):
     return out
 
 
+def parsein(binp, strings):
+    stdin = "\n".join(x.encode().hex() or "-" for x in strings) + "\n"
+    out = rbv(binp, ["parsein"], stdin=stdin)
+    res = []
+    for line in out.splitlines():
+        if line.startswith("parse "):
+            rest = line.split(" -> ")[1].split()
+            res.append(None if rest[0] in ("none", "panic", "notutf8") else tuple(int(x) for x in rest[:4]))
+    return res
+
+
 def search_doc_syntax(chk, binp, n):
+    """Returns (violations, deviations inside the known class from_str_index_i32)."""
     rng = random.Random(chk.seed * 7919 + 14)
     items = doc_strings(rng, n)
-    stdin = "\n".join(s.encode().hex() or "-" for s, _ in items) + "\n"
-    out = rbv(binp, ["parsein"], stdin=stdin)
-    fails = []
-    lines = [l for l in out.splitlines() if l.startswith("parse ")]
-    if len(lines) != len(items):
-        return [{"what": "parsein-length", "input": "%d answers for %d strings" % (len(lines), len(items))}]
+    got_all = parsein(binp, [x for x, _ in items])
+    if len(got_all) != len(items):
+        return [{"what": "parsein-length", "input": "%d answers for %d strings" % (len(got_all), len(items))}], []
+    fails, known = [], []
     nontrivial = 0
-    for (s, want), line in zip(items, lines):
-        rest = line.split(" -> ")[1].split()
-        got = None if rest[0] in ("none", "panic") else tuple(int(x) for x in rest[:4])
+    for (s, want), got in zip(items, got_all):
         if want[2:] != (0, U32MAX):
             nontrivial += 1
         if got != want:
-            fails.append({"what": "from_str-meaning", "input": s, "expected(tag,value,start,end)": want, "got": rest})
+            big = [int(x) for x in re.findall(r"\d+", s[s.find("["):s.find("]") + 1])] if "[" in s else []
+            rec = {"what": "from_str-meaning", "input": s, "expected(tag,value,start,end)": want, "got": got}
+            if any(x >= 2 ** 31 for x in big):
+                known.append(rec)
+            else:
+                fails.append(rec)
     chk.add_eval(len(items), nontrivial)
     chk.sample({"doc_syntax": "%s -> %s" % (items[0][0], items[0][1])})
-    return fails
+    chk.note("doc_syntax_predicate", {"strings": len(items), "ranged": nontrivial, "index_ge_2^31_deviations": len(known)})
+    return fails, known
 
 
 def search_feature_new(chk, binp):
@@ -395,30 +418,42 @@ def impl_search(chk, binp, thorough, s_recs=None, pl_recs=None):
     fails = []
     viol, known = search_feature_new(chk, binp)
     fails += viol
-    fails += search_doc_syntax(chk, binp, 6000 if thorough else 1500)
+    dfails, known2 = search_doc_syntax(chk, binp, 6000 if thorough else 1500)
+    fails += dfails
     fails += search_set_masks(chk, s_recs)
     fails += search_plans(chk, pl_recs, consts)
     fails += search_api(chk, binp, thorough)
-    return fails, known
+    return fails, (known, known2)
 
 
-def report_known(chk, binp, known, model_witness=None):
-    """Known-finding flow for class feature_new_end_bound. Returns extra violations."""
+def run_witness2(binp):
+    w = json.load(open(WITNESS2))["witness"]
+    got = parsein(binp, [w["string"]])
+    return (got[0] != tuple(w["expected"])), "from_str(%r) = %s, HarfBuzz meaning %s" % (w["string"], got[0], tuple(w["expected"]))
+
+
+def report_known(chk, binp, knowns, model_witness=None):
+    """Known-finding flow for the two classes. Returns extra violations."""
+    known, known2 = knowns
     extra = []
-    wfail, wout = run_witness(binp)
-    if known and not chk.is_known(CLS):
-        for line in known[:3]:
-            extra.append({"what": "feature-new-bounded-end", "input": line})
-        return extra
-    if wfail:
-        chk.known_finding(CLS, "replay=corpus/C14-feature-new-bounded-end.json Feature::new with a bounded range end stores end-1: %s; "
-                          "%d deviations in this run, all with a bounded end" % (wout, len(known)))
-    else:
-        print("KNOWN-FINDING-STALE: property=C14 class=%s the recorded witness no longer fails on the implementation (%s); "
-              "remove the entry from KNOWN_FINDINGS.txt and re-model Feature::new" % (CLS, wout))
-    if model_witness is not None and model_witness != [0, 1, 1] and model_witness != [1, 0, 1]:
+    for cls, devs, runw, corpus, what in (
+            (CLS, known, run_witness, "corpus/C14-feature-new-bounded-end.json", "Feature::new with a bounded range end stores end-1"),
+            (CLS2, known2, run_witness2, "corpus/C14-from-str-index-i32.json", "from_str reads indices as i32; an index >= 2^31 is treated as absent")):
+        if not chk.is_known(cls):
+            for d in devs[:3]:
+                extra.append({"what": cls.replace("_", "-"), "input": d})
+            continue
+        wfail, wout = runw(binp)
+        if wfail:
+            chk.known_finding(cls, "replay=%s %s: %s; %d deviations in this run, all inside the class" % (corpus, what, wout, len(devs)))
+        else:
+            print("KNOWN-FINDING-STALE: property=C14 class=%s the recorded witness no longer fails on the implementation (%s); "
+                  "remove the entry from KNOWN_FINDINGS.txt and re-model" % (cls, wout))
+            for d in devs[:3]:
+                extra.append({"what": cls.replace("_", "-") + "-outside-stale-entry", "input": d})
+    if model_witness is not None and model_witness not in ([0, 1, 1], [1, 0, 1]):
         extra.append({"what": "known-witness-not-refuted-by-model", "input": model_witness})
-    chk.note("known_class_deviations", len(known))
+    chk.note("known_class_deviations", {CLS: len(known), CLS2: len(known2)})
     return extra
 
 
@@ -431,22 +466,44 @@ def run(chk):
                        "corpus fonts with 0..45 user features (hook). implementation-level predicates: Feature::new acts on c iff range contains c; "
                        "documented syntax -> meaning; set_masks range/value; mask-field invariants; shape() on generated fonts: every (start,end) "
                        "over texts of length <= 6, values {0,1,2,3,5,6,255} (quick) or 0..255 (thorough), LTR/RTL, 3 cluster levels, 4 cluster "
-                       "numberings, several simultaneous features up to mask exhaustion; single/alternate features of corpus fonts. "
+                       "numberings (thorough: all 4 for every case), several simultaneous features up to mask exhaustion; single/alternate features of "
+                       "corpus fonts; correspondence and the generated-font predicate repeated on the overflow-checked build. "
                        "non-trivial = distinct case (correspondence); range contains the cluster / feature changed the shaping result (predicates)")
     pr = chk.prove(extra_targets=["Corr/FeatureC.vo"])
+    try:
+        gen = open(os.path.join(C.COQ, "Gen", "FeatureConsts.v")).read()
+        m = re.search(r"statements whose source text changed since the model was written: (.*?) \*\)", gen)
+        chk.note("modelled_statements_changed_text", m.group(1) if m else "?")
+    except OSError:
+        pass
     broken = []
     if chk.guards_failed:
-        broken += ["translator-guard:%s (%s)" % g for g in chk.guards_failed if g[0].startswith(("feat", "alloc", "set_masks", "new_", "alt_", "glyph_flag", "F_", "feature_", "tr_feature"))]
+        broken += ["translator-guard:%s (%s)" % g for g in chk.guards_failed if g[0].startswith(("feat", "glyph_flag", "F_", "feature_", "tr_feature"))]
     if not pr["ok"]:
         broken += ["proof:" + f for f in pr["failed"]]
     ok, binp, blog = C.cargo_build("release", hooks=True)
-    dis, fails, known = [], [], []
+    dis, fails, known = [], [], ([], [])
     if not ok:
         broken.append("hook-build-failed: " + blog[-600:])
     else:
         dis, s_recs, pl_recs, mw = correspondence(chk, binp, thorough)
         fails, known = impl_search(chk, binp, thorough, s_recs, pl_recs)
         fails += report_known(chk, binp, known, mw)
+        ok2, binc, blog2 = C.cargo_build("checked", hooks=True)
+        if ok2:
+            dis2, _, _, _ = correspondence(chk, binc, thorough, "checked")
+            dis += dis2
+            # the generated-font predicate once more on the overflow-checked build (a trap is a failure)
+            out = rbv(binc, ["api", "--seed", chk.seed, "--values", "few", "--n", 1000])
+            for line in out.splitlines():
+                if line.startswith("fail "):
+                    fails.append({"what": "api-checked-build-" + line.split()[1].split("=")[1].split(":")[0], "input": line})
+                m = re.match(r"api-summary evaluations=(\d+) nontrivial=(\d+)", line)
+                if m:
+                    chk.add_eval(int(m.group(1)), int(m.group(2)))
+                    chk.note("api_generated_fonts_checked_build", {"shapes": int(m.group(1)), "feature_changed_result": int(m.group(2))})
+        else:
+            broken.append("checked-build-failed: " + blog2[-600:])
     chk.note("correspondence_disagreements", len(dis))
     seen = set()
     n = 0
@@ -475,13 +532,15 @@ def replay(chk, path):
     print(json.dumps(body, indent=1)[:3000])
     ok, binp, _ = C.cargo_build("release", hooks=True)
     if "witness" in body:
-        wfail, wout = run_witness(binp)
+        wfail, wout = (run_witness2 if body.get("class") == CLS2 else run_witness)(binp)
         print(("STILL FAILING: " if wfail else "no longer failing: ") + str(wout))
         return 1 if wfail else 0
     chk.seed = body.get("seed", chk.seed)
-    fails, known = impl_search(chk, binp, body.get("tier") == "thorough")
+    fails, (known, known2) = impl_search(chk, binp, body.get("tier") == "thorough")
     if not chk.is_known(CLS):
         fails += [{"what": "feature-new-bounded-end", "input": k} for k in known[:3]]
+    if not chk.is_known(CLS2):
+        fails += [{"what": "from-str-index-i32", "input": k} for k in known2[:3]]
     for f in fails[:5]:
         print("STILL FAILING:", json.dumps(f, default=str)[:1500])
     return 1 if fails else 0
